@@ -21,7 +21,25 @@ def knobs(r, i):
     return {"cycle_density": 1 + i % 3, "threads": 1 + i % 3, "cancelable": i % 2 == 0, "multi": i % 3 == 0, "unsampled": i % 3 == 0 or i % 7 == 0, "prebuilt": i % 2 == 1, "stepped": i % 3 == 1, "deprecated_events": i % 4 == 0}
 
 
+D23 = """0 spawn
+0 setReporter 0
+0 root r 72 1 0 1
+0 scope r
+0 lAddEvent 6531 none
+0 scope r
+0 lAddEvent 6532 none
+0 close
+0 lAddEvent 6533 none
+0 close
+0 drop r
+0 cycle
+0 stats""".split("\n")
+
+
 def known(lines, oracle, msg):
+    # D23: local-parent scopes of the same span nested on one thread — the attachments arrive in the order the scopes end
+    if oracle == "attachments" and "[nested local-parent scopes of the same span: D23]" in msg:
+        return "id=D23"
     # D10: one span set delivered twice into one trace — attachments all go to the first copy
     if oracle in ("attachments", "copies"):
         spec = proggen.spec_of(lines)
@@ -54,6 +72,7 @@ MIXED = """0 spawn
 
 def extra(r):
     return [("kf/D10-witness", D10, ["no_panic", "attachments"]),
+            ("kf/D23-witness", D23, ["no_panic", "attachments"]),
             # a span with a sampled and an unsampled parent: its one delivered copy carries every attachment
             ("mixed/sampled-and-unsampled-parents", MIXED, ["no_panic", "attachments", "tree", "exactly_once"])]
 
